@@ -1,7 +1,8 @@
 --------------------------- MODULE Trace_Feasibility ---------------------------
 (* B3 for C13: recorded executions of the real compute_path_with_disjunction are judged against               *)
 (* FeasibilityOps.  One trace = one service request on one path with one constructed transceiver library:      *)
-(*   modes[k]   what was CONFIGURED for mode k (baud rate, bit rate, fits, threshold = OSNR + margin, reciprocal *)
+(*   si         the SI entries of the equipment library as listed (the margin is the DEFAULT entry's)              *)
+(*   modes[k]   what was CONFIGURED for mode k (baud rate, bit rate, fits, required OSNR, reciprocal             *)
 (*              transmitter OSNR, penalty points as listed in the file) and the figures of mode k propagated ALONE on a fresh copy   *)
 (*              of the path with the implementation's own propagate(): pf (forward), pr (reverse)              *)
 (*   stf/str    CONFIGURATION of every add/drop stage crossed, forward / reverse: profiles of the ROADM type as   *)
@@ -77,7 +78,7 @@ StepClauses(tr, e) == IF e.kind = 2 THEN ReportedClauses(tr, e) ELSE EvalClauses
 ModeRec(tr, k, dir) ==
   LET m == tr.modes[k]
       p == Pristine(tr, k, dir)
-  IN  [br |-> m.br, rate |-> m.rate, fits |-> m.fits = 1, thr |-> m.thr,
+  IN  [br |-> m.br, rate |-> m.rate, fits |-> m.fits = 1, thr |-> Threshold(m.osnr, tr.si),
        worst |-> IF p.ran = 1 THEN Worst(p.rxdb, p.tot) ELSE -Inf]
 Lib(tr) == [k \in 1..Len(tr.modes) |-> ModeRec(tr, k, 0)]
 
